@@ -447,6 +447,11 @@ pub enum Op {
     },
     /// traffic of / confusion with the second group
     Side(SideOp),
+    /// client `m` creates a further group of its own (no other members). With `collide` the relay
+    /// list holds two URLs that differ as URLs but print the same text, which the SQLite backend
+    /// cannot store: the call fails half-way there - and whatever it leaves behind must not
+    /// affect later calls or what survives a restart
+    SoloGroup { m: u16, collide: bool },
 }
 
 /// one structure-aware mutation of a valid kind-445 event
@@ -1743,6 +1748,39 @@ impl World {
             Op::Side(sop) => {
                 self.apply_side_op(sop, obs)?;
             }
+            Op::SoloGroup { m, collide } => {
+                let Some(m) = self.member_sel(*m) else {
+                    return Ok(());
+                };
+                if self.clients[m].mdk.is_none() || self.twin.map(|(k, _)| k) == Some(m) {
+                    return Ok(());
+                }
+                let pk = self.clients[m].keys.public_key();
+                let relays = if *collide {
+                    match (RelayUrl::parse("wss://relay.example.com/chat"), RelayUrl::parse("wss://relay.example.com/chat/ ")) {
+                        (Ok(a), Ok(b)) => vec![a, b],
+                        _ => vec![relay_url(1)],
+                    }
+                } else {
+                    vec![relay_url(1)]
+                };
+                let config = NostrGroupConfigData::new(format!("solo-{}", self.step), "a group of one".into(), None, None, None, relays, vec![pk]);
+                let r = catch_unwind(AssertUnwindSafe(|| on_mdk!(self.clients[m].mdk(), mm => mm.create_group(&pk, vec![], config)).map(|_| ())));
+                match r {
+                    Ok(Ok(())) => self.count("op:solo-group"),
+                    Ok(Err(e)) => {
+                        self.sink(&e);
+                        self.note(format!("c{m} create_group (solo{}) refused: {e}", if *collide { ", colliding relay texts" } else { "" }));
+                        self.count("op:solo-group-refused");
+                    }
+                    Err(p) => {
+                        let t = panic_text(p);
+                        self.panics.push(format!("create_group: {t}"));
+                        return Err(Failure::new("panic", format!("create_group panicked: {t}")));
+                    }
+                }
+                obs.after_call(self, m, "create_group")?;
+            }
         }
         Ok(())
     }
@@ -2030,6 +2068,7 @@ impl World {
             return Ok(());
         }
         let before = self.full_all(m).iter().map(|f| f.without_clock()).collect::<Vec<_>>();
+        let everything_before = self.all_groups_projection(m);
         let pending_before: Vec<String> = on_mdk!(self.clients[m].mdk(), mm => mm.get_pending_welcomes(None))
             .unwrap_or_default()
             .iter()
@@ -2064,6 +2103,13 @@ impl World {
                 format!("c{m}: closing and reopening the database changed what the API shows: {d}"),
             ));
         }
+        let everything_after = self.all_groups_projection(m);
+        if everything_before != everything_after {
+            return Err(Failure::new(
+                "restart-changed-observable-state",
+                format!("c{m}: the list of groups (id, name, epoch, state, relays, message count) before the restart {everything_before:?} and after it {everything_after:?}"),
+            ));
+        }
         let pending_after: Vec<String> = on_mdk!(self.clients[m].mdk(), mm => mm.get_pending_welcomes(None))
             .unwrap_or_default()
             .iter()
@@ -2076,6 +2122,21 @@ impl World {
             ));
         }
         Ok(())
+    }
+
+    /// every group the client knows (not only the world's): id, name, epoch, state, relays, number of messages
+    pub fn all_groups_projection(&self, m: usize) -> Vec<(String, String, u64, String, Vec<String>, usize)> {
+        let Some(mdk) = self.clients[m].mdk.as_ref() else { return vec![] };
+        let mut v: Vec<_> = on_mdk!(mdk, mm => {
+            mm.get_groups().unwrap_or_default().into_iter().map(|g| {
+                let mut relays: Vec<String> = mm.get_relays(&g.mls_group_id).map(|r| r.iter().map(|u| u.to_string()).collect()).unwrap_or_default();
+                relays.sort();
+                let n = mm.get_messages(&g.mls_group_id, None).map(|l| l.len()).unwrap_or(0);
+                (hex::encode(g.mls_group_id.as_slice()), g.name.clone(), g.epoch, g.state.as_str().to_string(), relays, n)
+            }).collect::<Vec<_>>()
+        });
+        v.sort();
+        v
     }
 
     pub fn answer_welcome(
